@@ -67,9 +67,10 @@ func (fm *FileHandleMap) Allocate(f absfs.File) uint64 {
 				minHandle = h
 			}
 		}
-		// Evict starting from the lowest handles
+		// Evict starting from the lowest handles, but never the handle being
+		// returned: a recycled id can be the lowest number in the table.
 		for h := minHandle; evictCount > 0; h++ {
-			if file, exists := fm.handles[h]; exists {
+			if file, exists := fm.handles[h]; exists && h != handle {
 				// Clean up path mapping for evicted entries
 				if node, ok := file.(*NFSNode); ok {
 					delete(fm.pathHandles, node.path)
